@@ -287,6 +287,8 @@ def gen_species(rng, tier, focus):
     if rng.random() < 0.3:
         tgt["velocities"] = [gen.rvec(rng, 1.0) for _ in range(m)]
     scale = 1.0 if rng.random() < 0.25 else rng.choice([0.5, 0.5, rng.uniform(0.01, 2.0), 2.0, rng.uniform(0.3, 1.0)])
+    if focus in ("C02", "C03", "C04") and rng.random() < 0.04:
+        scale = 0.0          # "all scale factors": everything collapses onto the anchors, which still move with the argument
     return ref, tgt, scale, info, n_res
 
 
